@@ -24,6 +24,7 @@ from mc.env import guard
 from tracklib.core.obs import Obs
 from tracklib.core.obs_coords import ENUCoords
 from tracklib.core.track import Track
+from tracklib.core.track_collection import TrackCollection
 from tracklib.core.network import Network, Node, Edge
 from tracklib.core.spatial_index import SpatialIndex
 from tracklib.algo.cinematics import computeAbsCurv
@@ -50,6 +51,7 @@ ASSUMPTIONS = ["networks are built the way test_mapping.py builds them: edge geo
 N_VARIANTS = 4
 
 OBLIGATIONS = {
+    "second_track_of_a_collection": "the track was also matched as the second track of a TrackCollection (after a different track) in one call",
     "edge_with_repeated_vertex": "a network whose edge geometries carry the same vertex twice in a row was matched",
     "unmatched_observation": "an observation is flagged unmatched",
     "observation_outside_index": "an observation lies outside the extent of the spatial index",
@@ -116,6 +118,18 @@ LAT7 = {
 SUB9 = [(2, 2), (3, 2), (4, 4), (1, 3), (5, 3), (3, 5), (0, 2), (4, 2), (2, 4)]     # indices into the 7x7 lattice
 
 
+# The "decimal" frame (variant + 10): the same networks and observations through x -> -5.3 + 1.1 x, y -> -4.9 + 1.1 y, so
+# that no coordinate is exactly representable (projection code that compares a*x + b*y + c results exactly shows here).
+def _xy(variant, px, py):
+    if variant >= 10:
+        return (-5.3 + 1.1 * px, -4.9 + 1.1 * py)
+    return alpha.xy(variant, px, py)
+
+
+def _scale(variant):
+    return 1.1 if variant >= 10 else alpha.scale(variant)
+
+
 def net_edges(name, drop=None):
     if name == "grid":
         E = _grid_edges(0.0)
@@ -141,18 +155,18 @@ def obs_alphabet(name):
 def build_network(variant, name, drop, orient, res):
     """-> (Network, edges in real coordinates [list of (x, y)]).  Edge ids differ from edge numbers on purpose."""
     E = net_edges(name, drop)
-    s = alpha.scale(variant)
+    s = _scale(variant)
     net = Network()
     nodes = {}
 
     def node(p):
         if p not in nodes:
-            x, y = alpha.xy(variant, p[0], p[1])
+            x, y = _xy(variant, p[0], p[1])
             nodes[p] = Node(100 + len(nodes), ENUCoords(x, y, 0.0))
         return nodes[p]
     real = []
     for k, g in enumerate(E):
-        pts = [alpha.xy(variant, p[0], p[1]) for p in g]
+        pts = [_xy(variant, p[0], p[1]) for p in g]
         tr = Track([Obs(ENUCoords(x, y, 0.0)) for (x, y) in pts])
         computeAbsCurv(tr)
         e = Edge(200 + 3 * k, tr)
@@ -183,16 +197,57 @@ def _fields(t):
 
 
 def _mk_track(variant, seq):
-    t0 = alpha.t0(variant)
+    t0 = alpha.t0(variant % 10)
     obs = []
     for k, p in enumerate(seq):
-        x, y = alpha.xy(variant, p[0], p[1])
+        x, y = _xy(variant, p[0], p[1])
         obs.append(Obs(ENUCoords(x, y, 1.5), alpha.obstime(t0 + DT * k)))
     return Track(obs)
 
 
 def _snapshot(t):
     return (len(t), tuple(t.getX()), tuple(t.getY()), tuple(t.getZ()), tuple(_fields(o.timestamp) for o in t))
+
+
+def _call_collection(tracks, net, radius, noise):
+    """The same through the collection form: mapOnNetwork(TrackCollection([...]), ...).  -> rows of the LAST track."""
+    mapOnNetwork(TrackCollection(tracks), net, gps_noise=noise, search_radius=radius)
+    track = tracks[-1]
+    rows = []
+    for k in range(len(track)):
+        s = track["hmm_inference", k]
+        if not isinstance(s, (tuple, list)) or len(s) != 4 or not hasattr(s[0], "getX"):
+            rows.append(("malformed", repr(s)[:120]))
+            continue
+        rows.append((s[0].getX(), s[0].getY(), s[1], s[2], s[3]))
+    return rows
+
+
+def _rows_failure(W, rows, obs_pts, radius):
+    """The four conditions of the statement on the rows of one track -> None or (finding suffix, detail)."""
+    if len(rows) != len(obs_pts):
+        return ("malformed-inference", "one inferred state per observation expected")
+    for k, row in enumerate(rows):
+        if row[0] == "malformed":
+            return ("malformed-inference", row[1])
+        px, py, en, ds, dt = row
+        if isinstance(en, (int, float)) and not isinstance(en, bool) and en == -1:
+            continue
+        px, py, ds, dt = G.num(px), G.num(py), G.num(ds), G.num(dt)
+        if None in (px, py, ds, dt) or isinstance(en, bool) or not isinstance(en, int) or not (0 <= en < len(W.real)):
+            return ("malformed-inference", repr(row)[:200])
+        g = W.P[en]
+        Pm = (G.fr(px), G.fr(py))
+        det = {"observation": k, "state": [px, py, en, ds, dt]}
+        if min(G.nearest_on_segment(Pm, g[i], g[i + 1])[0] for i in range(len(g) - 1)) > Fraction(1e-6) ** 2:
+            return ("matched-point-off-the-edge", det)
+        if G.d2_pts(G.frpt(obs_pts[k]), Pm) > Fraction(radius + G.tol(radius)) ** 2:
+            return ("matched-point-beyond-search-radius", dict(det, observed=list(obs_pts[k]), radius=radius))
+        L = W.len[en]
+        t6 = 1e-6 * max(1.0, L)
+        if ds < -t6 or dt < -t6 or abs(ds + dt - L) > t6:
+            return ("along-edge-distances-do-not-add-to-edge-length", dict(det, edge_length=L))
+    return None
 
 
 def _call(track, net, radius, noise):
@@ -269,10 +324,10 @@ class World(object):
 def check_map(W, radius_l, noise, seq, ctx, history=True):
     """One case: mapOnNetwork(track(seq), W.net, gps_noise=noise, search_radius=radius)."""
     v = W.variant
-    s = alpha.scale(v)
+    s = _scale(v)
     radius = radius_l * s
     case = W.case(radius_l, noise, seq)
-    obs_pts = [alpha.xy(v, p[0], p[1]) for p in seq]
+    obs_pts = [_xy(v, p[0], p[1]) for p in seq]
     nE = len(W.real)
     # ---- input classes (oracle side) -------------------------------------------------------
     r2 = Fraction(radius) ** 2
@@ -395,6 +450,18 @@ def check_map(W, radius_l, noise, seq, ctx, history=True):
         if st2 != "ok" or repr(rows2) != repr(rows):
             ctx.violation("mapOnNetwork/result-depends-on-previous-call", case,
                           {"fresh": rows, "after_a_call_on_another_network": rows2 if st2 == "ok" else [st2, rows2]})
+        # ---- and as the second track of a collection handed over in one call (the first one is another track) ----------
+        env.reset_globals()
+        other = list(reversed(seq)) + [seq[0]]
+        st3, rows3 = guard(_call_collection, [_mk_track(v, other), _mk_track(v, seq)], W.net, radius, noise)
+        ctx.oblige("second_track_of_a_collection")
+        if st3 != "ok":
+            if not (str(rows3).startswith("ZeroDivisionError") and _predicts_zde(W.real, obs_pts + [_xy(v, p[0], p[1]) for p in other])):
+                ctx.violation("mapOnNetwork/collection/%s" % ("does-not-return" if st3 == "hang" else "raises"), case, rows3)
+        else:
+            bad = _rows_failure(W, rows3, obs_pts, radius)
+            if bad:
+                ctx.violation("mapOnNetwork/collection/second-track/" + bad[0], case, bad[1])
     env.reset_globals()
 
 
@@ -419,7 +486,7 @@ def bounds(tier, variant):
          "search_radii": RADII, "gps_noise": [50], "observation_alphabet": "7x7 lattice per network (49 points)",
          "sequences": "all of length 1; all of length 2 over a 16-point (quick) / the 49-point (thorough) alphabet; "
                       "all of length 3 over 9 points",
-         "lattice_offset_scale": list(alpha.PLANAR[variant]), "history": "fresh globals, and second of two consecutive calls"}
+         "lattice_offset_scale": list(alpha.PLANAR[variant % 10]), "history": "fresh globals, and second of two consecutive calls"}
     if tier == "thorough":
         b["sub_networks"] = "every network with one edge deleted (12 + 12 + 8)"
         b["gps_noise"] = [50, 3]
@@ -438,10 +505,17 @@ def _alphabets(name):
     return full, sub16, sub9
 
 
+def _decimal_shards(variant):
+    res0 = alpha.order(variant % 10, list(range(len(RESOLUTIONS))))[0]
+    rads = alpha.order(variant % 10, list(range(len(RADII))))[:2]
+    return [sh for sh in _plan_variant(variant + 10, False)
+            if sh["net"] in ("grid", "oblique", "dup") and sh["res"] == res0 and sh["radius"] in rads + [2]]
+
+
 def plan(tier, variant):
     if tier == "quick":
-        return _plan_variant(variant, False)
-    sh = _plan_variant(variant, True)
+        return _plan_variant(variant, False) + _decimal_shards(variant)
+    sh = _plan_variant(variant, True) + _decimal_shards(variant)
     for v in range(N_VARIANTS):
         if v != variant:
             sh += _plan_variant(v, False)
@@ -450,8 +524,8 @@ def plan(tier, variant):
 
 def _plan_variant(variant, deep):
     sh = []
-    res_list = alpha.order(variant, list(range(len(RESOLUTIONS))))
-    rad_list = alpha.order(variant, list(range(len(RADII))))
+    res_list = alpha.order(variant % 10, list(range(len(RESOLUTIONS))))
+    rad_list = alpha.order(variant % 10, list(range(len(RADII))))
     for name in ("oblique", "skew", "grid"):
         for ri in res_list:
             for di in rad_list:
